@@ -74,7 +74,8 @@ def _kw(ch: core.Chooser) -> dict:
 
 
 OPS = ["add", "sub", "mul", "pow", "derivative", "gradient", "hessian", "call_full", "call_partial", "call_poly", "getitem", "align", "clean", "pickle",
-       "lt", "eq_cmp", "lead_exponent", "lead_coefficient", "argmax", "maximum", "str", "repr", "neg", "sum", "reshape", "concat", "where", "polynomial"]
+       "lt", "eq_cmp", "lead_exponent", "lead_coefficient", "argmax", "maximum", "str", "repr", "neg", "sum", "reshape", "concat", "where", "polynomial",
+       "isfinite", "dict_ctor", "noname_ctor", "const_tonumpy", "pow_by_poly"]
 
 
 def _gen_op(ch: core.Chooser, nslots: int, names: List[str]) -> dict:
@@ -93,6 +94,8 @@ def _gen_op(ch: core.Chooser, nslots: int, names: List[str]) -> dict:
         node["var"] = ch.choice(names)
     if fn == "getitem":
         node["idx"] = ch.below(2)
+    if fn == "noname_ctor":
+        node["rows"] = ch.choice([[[0, 2], [0, 0]], [[0, 1]], [[0, 0, 3], [0, 1, 0]], [[1, 0], [0, 2]], [[0, 0, 1]]])
     return node
 
 
@@ -314,6 +317,29 @@ class Exec:
             return n.reshape(a, (-1,))
         if fn == "polynomial":
             return n.polynomial([a, a]) if a.shape == () else n.polynomial(a)
+        if fn == "isfinite":
+            if node["ins"][1] % 2:
+                return n.isfinite(a)
+            # one term that is non-finite in every element (an overflow): no product is involved, so no inf*0
+            bad = n.polynomial_from_attributes([[9] + [0] * (len(a.names) - 1)], [numpy.full(a.shape, numpy.inf)], a.names)
+            return n.isfinite(a + bad)
+        if fn == "dict_ctor":
+            # caller-ordered terms, an all-zero non-constant term of another type first
+            items = [((40,) + (0,) * (len(a.names) - 1), numpy.zeros(a.shape, dtype=int))]  # (an exponent no operand reaches)
+            items += [(tuple(int(v) for v in e), numpy.asarray(c)) for e, c in list(zip(a.exponents.tolist(), a.coefficients))[::-1] if tuple(e) != items[0][0]]
+            return n.polynomial(dict(items), names=a.names)
+        if fn == "noname_ctor":
+            # no names given: the default names are positional, whatever columns are in use
+            rows = node.get("rows") or [[0, 2], [0, 0]]
+            return n.polynomial_from_attributes(rows, [numpy.full(a.shape, i + 2) for i in range(len(rows))])
+        if fn in ("const_tonumpy", "pow_by_poly"):
+            nv = len(a.names)
+            three = n.polynomial({(2,) + (0,) * (nv - 1): 0, (0,) * nv: 3}, names=a.names)
+            if fn == "const_tonumpy":
+                return n.tonumpy(three)
+            if a.size > 2:
+                raise core.Undecided("operand too large for a power")
+            return a ** three
         if fn == "derivative":
             var = node["var"]
             if var not in a.names:
